@@ -326,9 +326,10 @@ def oracle_part(ctx):
             Ainv[:, j] = ml.coarse_solver(ml.levels[-1].A, e)
         A0 = hier.dense_of(ml.levels[0].A)
         n0 = A0.shape[0]
-        for cname, cpl in (('V', 1), ('W', 1), ('F', 1), ('F', 2)):
+        for cname, cpl in (('V', 1), ('W', 1), ('F', 1), ('F', 2), ('W', 3), ('V', 2)):
             if nlev == 1 and cname != 'V':
                 continue
+            # (cycles_per_level is a parameter of the F-cycle: V and W ignore it)
             M = reference_M(levels, Ainv, cname, cpl) if nlev > 1 else Ainv
             x0 = np.array([rng.uniform(-1, 1) for _ in range(n0)]).astype(dt)
             b = np.array([rng.uniform(-1, 1) for _ in range(n0)]).astype(dt)
@@ -406,6 +407,22 @@ def oracle_part(ctx):
                     ctx.fail('cycle/%s/near-solution-guess' % cname, 'x0 within the default tolerance: |solve - (x + M(b-Ax))| = %.3g, |M r| = %.3g'
                              % (np.linalg.norm(x1 - want), den), cs)
                 ctx.count('near-solution-guess')
+        # the preconditioner operator is additive over every vector it is handed: a real / integer / single-precision vector
+        # gives what the same numbers give in the hierarchy's own type
+        if nlev > 1:
+            Mop = ml.aspreconditioner(cycle='V')
+            vv = np.array([rng.choice([-2.0, -1.0, 0.0, 1.0, 3.0]) for _ in range(n0)])
+            ref_ = Mop @ vv.astype(dt)
+            for vt, tolv in ((vv.astype(float), 1e-12), (vv.astype(np.int64), 1e-12), (vv.astype(np.float32), 1e-12)):
+                try:
+                    got_ = np.asarray(Mop @ vt)
+                except Exception as e:   # noqa
+                    ctx.fail('aspreconditioner/raises', repr(e), dict(case, vector_dtype=str(vt.dtype)))
+                    continue
+                ctx.count('aspreconditioner-vector-dtype')
+                if _nn(np.linalg.norm(got_ - ref_)) > tolv * (1 + np.linalg.norm(ref_)):
+                    ctx.fail('aspreconditioner/depends-on-vector-dtype', 'M @ v for v of type %s differs from M @ v in the type of the hierarchy (%s) by %.3g'
+                             % (vt.dtype, np.dtype(dt).name, np.linalg.norm(got_ - ref_)), dict(case, vector_dtype=str(vt.dtype)))
 
 
 def transient(ctx):
@@ -441,12 +458,47 @@ def transient(ctx):
                          % (k, len(res) - 1, k, np.linalg.norm(xk - y), ['%.2e' % r for r in res]), case)
 
 
+def changed_matrix(ctx):
+    """after change_solve_matrix(A2) the cycle is the cycle of the new fine-level matrix: the exact solution of A2 x = b is a
+    fixed point (smoothers with their own copies of the matrix -- block inverses -- must be rebuilt)"""
+    import pyamg
+    from pyamg.gallery import poisson
+    from pyamg.relaxation.smoothing import change_smoothers
+    A = sp.csr_array(poisson((6, 6), format='csr'))
+    n = A.shape[0]
+    rng = ctx.sub('changed')
+    for pre, post in ((('block_gauss_seidel', {'sweep': 'symmetric', 'blocksize': 2}), ('block_jacobi', {'blocksize': 2})),
+                      (('gauss_seidel', {'sweep': 'forward'}), ('jacobi', {'omega': 0.8})),
+                      (('block_jacobi', {'blocksize': 3}), ('block_gauss_seidel', {'sweep': 'backward', 'blocksize': 3}))):
+        np.random.seed(ctx.seed)
+        try:
+            # (two levels: only the fine level, 36 unknowns, is smoothed)
+            ml = pyamg.smoothed_aggregation_solver(A, presmoother=pre, postsmoother=post, max_levels=2)
+        except Exception as e:   # noqa
+            ctx.notes.append('changed_matrix: constructor %r: %r' % (pre, e))
+            continue
+        A2 = sp.csr_array(A + 0.3 * sp.eye_array(n) + sp.diags_array(np.arange(n) % 3 * 0.2))
+        ml.change_solve_matrix(A2)
+        xs = np.array([rng.uniform(-1, 1) for _ in range(n)])
+        b = A2 @ xs
+        case = dict(change_solve_matrix=True, pre=pre, post=post)
+        ctx.mark(case)
+        for cyc in ('V', 'W', 'F'):
+            x1 = ml.solve(b, x0=xs.copy(), maxiter=1, tol=1e-300, cycle=cyc)
+            ctx.case(('changed-matrix', repr(pre), cyc), True)
+            ctx.count('changed-matrix')
+            if _nn(np.linalg.norm(x1 - xs)) > 1e-10 * np.linalg.norm(xs):
+                ctx.fail('cycle/%s/after-change_solve_matrix' % cyc, 'the exact solution of the new system moves by %.3g (relative) in one cycle'
+                         % (np.linalg.norm(x1 - xs) / np.linalg.norm(xs)), dict(case, cycle=cyc))
+
+
 def run(ctx):
     ctx.corr_relations = ['MultilevelSolver.solve(b, x0, maxiter=k, cycle, cycles_per_level) == repeat_fn k (Cycle.cycle h ct cpl . b) x0 on Q (exact)',
                           'MultilevelSolver.aspreconditioner(cycle) @ v == Cycle.Mtb h ct 1 v == cycle from zero (exact)']
     exact_part(ctx)
     oracle_part(ctx)
     transient(ctx)
+    changed_matrix(ctx)
 
 
 def search(ctx):
